@@ -122,6 +122,8 @@ func c04WholeOnce(t *testing.T, s *sim.Scn, k int, o *sim.Outcome) (fired bool) 
 		fail := func(oracle, obs, exp string) {
 			o.Fail(oracle, oracle+"/cut="+cut, k, fmt.Sprintf("[whole node, crash point %d, cut %s, chain height before the crash window %d, on disk after it %d] %s", k, cut, hBefore, committed, obs), exp)
 		}
+		// the node stays down for a seeded while (0, 1.5 or 6 block times) before the operator starts it again
+		time.Sleep([]time.Duration{0, 3 * rw.bt / 2, 6 * rw.bt}[s.Cfg["down"]%3])
 		// restart on the durable image; the operator tries three times. A node that commits a block and then
 		// shuts itself down has not resumed production.
 		healthy := false
@@ -217,7 +219,7 @@ func c04WholeRun(t *testing.T, s *sim.Scn) *sim.Outcome {
 
 func c04WholeGen(r *rand.Rand, tier string) *sim.Scn {
 	s := &sim.Scn{Cfg: map[string]int64{"whole": 1, "bt": []int64{200, 500, 1000}[r.IntN(3)], "dat": 1000, "peer": r.Int64N(2),
-		"warm": []int64{0, 0, 300, 1200, 2500, 6000}[r.IntN(6)], "txs": r.Int64N(3), "lazy": 0, "k0": r.Int64N(3), "kstep": 1 + r.Int64N(3), "eager": r.Int64N(2), "linkms": r.Int64N(40)}}
+		"warm": []int64{0, 0, 300, 1200, 2500, 6000}[r.IntN(6)], "txs": r.Int64N(3), "lazy": 0, "k0": r.Int64N(3), "kstep": 1 + r.Int64N(3), "eager": r.Int64N(2), "linkms": r.Int64N(40), "down": r.Int64N(3)}}
 	if tier == "thorough" {
 		s.Cfg["kstep"] = 1
 		s.Cfg["k0"] = 0
